@@ -2101,9 +2101,19 @@ func (k *Kernel) handleReplayedHeader(
 
 	// Now ensure we have majority vote power,
 	// otherwise the replay cannot proceed.
+	headerProof, ok := tempProofs[string(header.Hash)]
+	if !ok {
+		return tmelink.ReplayedHeaderValidationError{
+			Err: fmt.Errorf(
+				"commit proof contains no precommits for replayed header with hash %x",
+				header.Hash,
+			),
+		}
+	}
+
 	var blockPow uint64
 	var bs bitset.BitSet
-	tempProofs[string(header.Hash)].SignatureBitSet(&bs)
+	headerProof.SignatureBitSet(&bs)
 	for i, ok := bs.NextSet(0); ok && int(i) < len(valSet.Validators); i, ok = bs.NextSet(i + 1) {
 		blockPow += valSet.Validators[int(i)].Power
 	}
